@@ -41,7 +41,7 @@ func TestVerifExpander(t *testing.T) {
 		{"K12D10", xof.K12D10, 128, func(m []byte, n int) []byte { return keccak.K12(m, nil, n) }},
 	}
 	dstLens := []int{0, 1, 16, 43, 254, 255, 256, 257, 300}
-	n := lib.Scale(3000, 150000)
+	n := scale(6000, 150000)
 	lib.Par(n, func(i int) {
 		r := lib.NewRng("c15/expander", i)
 		dl := dstLens[i%len(dstLens)]
